@@ -20,10 +20,17 @@ def genSquare (n : Nat) (corner : List Rat) (loops : Nat → Option (Nat → Rat
     | some g => loopSet A (C17.rangeOf n s).1 ((C17.rangeOf n s).2 - (C17.rangeOf n s).1)
         (fun k => g (k + C17.startOf n s))) A
 
-theorem bridge_corners (n : Nat) : C17.corners n = sqCorners n := rfl
+/-- tolerant of arithmetic re-spellings of the index expressions (`n*3//4`, `1+n//4`, …): `rfl` first, `omega` otherwise -/
+theorem bridge_corners (n : Nat) : C17.corners n = sqCorners n := by
+  first
+  | rfl
+  | (unfold C17.corners sqCorners; simp only [List.cons.injEq, and_true, true_and]; first | omega | (refine ⟨?_, ?_, ?_, ?_⟩ <;> omega))
 
 theorem bridge_range (n : Nat) : ∀ s, C17.rangeOf n s = sideRange n s
-  | 0 => rfl | 1 => rfl | 2 => rfl | _ + 3 => rfl
+  | 0 => by first | rfl | (simp only [C17.rangeOf, sideRange, Prod.mk.injEq, and_true, true_and]; first | omega | (constructor <;> omega))
+  | 1 => by first | rfl | (simp only [C17.rangeOf, sideRange, Prod.mk.injEq, and_true, true_and]; first | omega | (constructor <;> omega))
+  | 2 => by first | rfl | (simp only [C17.rangeOf, sideRange, Prod.mk.injEq, and_true, true_and]; first | omega | (constructor <;> omega))
+  | _ + 3 => by first | rfl | (simp only [C17.rangeOf, sideRange, Prod.mk.injEq, and_true, true_and]; first | omega | (constructor <;> omega))
 
 theorem bridge_start (n : Nat) : ∀ s, C17.startOf n s = sideStart s
   | 0 => rfl | 1 => rfl | 2 => rfl | _ + 3 => rfl
@@ -37,8 +44,14 @@ theorem bridge_exprs (n : Nat) :
 theorem bridge_cornerValues : C17.cornerU = [0, 1, 1, 0] ∧ C17.cornerV = [0, 0, 1, 1] := ⟨rfl, rfl⟩
 
 /-- the model's `U` array is the one assembled from the translated pieces -/
-theorem bridge_U (n : Nat) : genSquare n C17.cornerU (C17.loopU n) = squareU n := rfl
+theorem bridge_U (n : Nat) : genSquare n C17.cornerU (C17.loopU n) = squareU n := by
+  first
+  | rfl
+  | (unfold genSquare; simp only [bridge_corners, bridge_range, bridge_start]; rfl)
 
-theorem bridge_V (n : Nat) : genSquare n C17.cornerV (C17.loopV n) = squareV n := rfl
+theorem bridge_V (n : Nat) : genSquare n C17.cornerV (C17.loopV n) = squareV n := by
+  first
+  | rfl
+  | (unfold genSquare; simp only [bridge_corners, bridge_range, bridge_start]; rfl)
 
 end Mouette.Tutte
